@@ -79,10 +79,26 @@ var floatPool = []float64{5e-324, 1e-310, 2.5e-320, -5e-324, 0.3, 12345678901234
 // sizes by it, so that a behaviour that depends on a size is exercised on
 // both sides of more possible limits.
 func Scale() int {
+	if unscaled {
+		return 1
+	}
 	if os.Getenv("VERIF_TIER") == "thorough" {
 		return 4
 	}
 	return 1
+}
+
+var unscaled bool
+
+// Unscaled runs a generator with Scale() == 1 in every tier. Checks that
+// evaluate each case many times over (C15 repeats every call twenty times
+// and again from eight goroutines) draw their documents through it, so that
+// the thorough tier stays bounded. A process runs one generator at a time.
+func Unscaled(f func()) {
+	old := unscaled
+	unscaled = true
+	defer func() { unscaled = old }()
+	f()
 }
 
 // Rare is Chance for cases whose cost grows with the square of Scale (two
